@@ -204,4 +204,26 @@ def reference(prog, fifo_final: dict) -> dict:
         "Ideal": ideal(prog),
         "Racy": set(racy(prog)),
         "ExecMax": exec_max(prog, fifo_final["ledger"]),
+        "RefViews": ref_views(prog, fifo_final["ledger"]),
     }
+
+
+def ref_views(prog, ledger) -> dict:
+    """per task the set of (hashes of the) upstream data it saw in the fault-free in-order run"""
+    from .driver import view_hash
+
+    out = {t["name"]: set() for s in prog["stages"] for t in s["tasks"]}
+    for e in ledger:
+        out[e["task"]].add(view_hash(e["view"]))
+    # what an early-firing join (first-of / quorum / multi-merge) and its descendants see legitimately depends on
+    # which branches happened to finish first, and racy stages may see a subset: no fixed reference there
+    early = {s["ref"] for s in prog["stages"] if s["join"] in ("DISCRIMINATOR", "MULTI_MERGE")
+             or (s["join"] == "N_OF_M" and 0 < s["thr"] < len(s["req"]))}
+    free = set(early) | racy(prog)
+    for r in list(early):
+        free |= descendants(prog, r)
+    for s in prog["stages"]:
+        if s["ref"] in free or s["parent"] in free:
+            for t in s["tasks"]:
+                out[t["name"]] = {"*"}
+    return out
